@@ -9,7 +9,7 @@ HARNESS = ("h_generator", ["h_generator.cpp"], {})
 HARNESS_T = ("h_generator_t", ["h_generator_t.cpp"], {"extra_flags": ["-fno-access-control", "-I/verif/harness/shim"]})
 
 ACCESS = ("next", "nnext", "anext", "call", "begin", "beginc", "inc", "pinc", "for", "while", "sub", "subr")
-REJECT = ("busy", "gone", "n/a", "noit", "bad-op", "blocked", "bad", "stale")
+REJECT = ("busy", "gone", "n/a", "noit", "bad-op", "blocked", "bad", "stale", "nokept")
 
 
 _hang_files = []
@@ -112,8 +112,8 @@ def split_line(line):
 # random suites: (name, P(generator<int,int>), body flavours, consumer styles for generator<int> / generator<int,int>, cases quick / thorough)
 PROFILES = {
     "mixed-styles": dict(p_arg=0.35, flavours=["sync", "sync", "async", "async", "mixed", "guards"],
-                         styles_v=["next", "anext", "call", "sub", "iter", "for", "while", "mixed", "mixed"],
-                         styles_a=["next", "anext", "call", "sub", "while", "mixed", "mixed"], quick=3000, thorough=120000, corpus=True),
+                         styles_v=["next", "anext", "call", "sub", "kept", "iter", "for", "while", "mixed", "mixed"],
+                         styles_a=["next", "anext", "call", "sub", "kept", "while", "mixed", "mixed"], quick=3000, thorough=120000, corpus=True),
     "sync-access-of-async-body": dict(p_arg=0.3, flavours=["async", "mixed"], styles_v=["next", "iter", "for", "while", "call-wait"],
                                       styles_a=["next", "while", "call-wait"], quick=1500, thorough=80000),
     "async-access": dict(p_arg=0.4, flavours=["async", "mixed", "sync"], styles_v=["anext", "call", "sub", "mixed"],
@@ -122,6 +122,8 @@ PROFILES = {
                                styles_a=["sub", "sub", "mixed"], quick=2000, thorough=80000),
     "reference-values": dict(p_arg=0.4, p_ref=1.0, flavours=["sync", "async", "mixed", "args"], styles_v=["call", "call", "call-wait", "mixed"],
                              styles_a=["call", "call", "call-wait", "mixed"], quick=2000, thorough=70000),
+    "kept-next-object": dict(p_arg=0.35, flavours=["sync", "async", "mixed", "args"], styles_v=["kept", "kept", "mixed"],
+                             styles_a=["kept", "kept", "mixed"], quick=1500, thorough=60000),
     "arguments": dict(p_arg=1.0, flavours=["args", "args", "mixed"], styles_v=["mixed"], styles_a=["next", "anext", "call", "while", "mixed", "mixed"],
                       quick=1500, thorough=70000),
     "destroy-parked": dict(p_arg=0.2, flavours=["guards"], styles_v=["next", "anext", "call", "iter", "mixed"],
@@ -212,7 +214,7 @@ class GenSuite(Suite):
                 base = arg
                 arg += 16                                 # the loop passes base, base+1, ...
                 return "while %d" % base
-            if mode == "a" and kind in ("next", "nnext", "anext", "call"):
+            if mode == "a" and kind in ("next", "nnext", "anext", "call", "keep"):
                 arg += rng.randint(1, 5)
                 return "%s %d" % (kind, arg)
             return kind
@@ -234,7 +236,7 @@ class GenSuite(Suite):
         if self.prof.get("p_destroy") and rng.random() < 0.7:
             budget = rng.randint(1, max(1, nyield))          # stop while the body is still parked at a co_yield
         for _ in range(nops):
-            if sum(1 for l in lines[2:] if l.split()[0] in ACCESS) >= budget:
+            if sum(1 for l in lines[2:] if l.split()[0] in ACCESS + ("kawait", "keep")) >= budget:
                 break
             r = rng.random()
             if style == "next":
@@ -251,6 +253,17 @@ class GenSuite(Suite):
                     ops += [completion() for _ in range(rng.randint(1, 2))]
                 if rng.random() < 0.8:
                     ops.append("value")
+            elif style == "kept":
+                # auto n = gen.next(a); then the same object is consulted several times
+                ops = [access("keep")]
+                if rng.random() < 0.15:
+                    ops.append(access(rng.choice(["next", "anext", "call"])))      # (with an argument type the kept reference is over then)
+                for _ in range(rng.randint(1, 4)):
+                    ops.append(rng.choice(["ktest", "ktest", "knot", "kawait"]))
+                    if ops[-1] == "kawait" and ks and rng.random() < 0.6:
+                        ops.append(completion())
+                    if rng.random() < 0.6:
+                        ops.append("value")
             elif style == "sub":
                 ops = [access("sub")]
                 if ks and rng.random() < 0.7:
@@ -289,7 +302,8 @@ class GenSuite(Suite):
                 if ops[0] == "anext" and ks:
                     ops.append(completion())
             else:
-                kinds = ["next", "nnext", "anext", "call", "sub", "value", "complete", "fread", "while", "active", "getid"]
+                kinds = ["next", "nnext", "anext", "call", "sub", "value", "complete", "fread", "while", "active", "getid",
+                         "keep", "ktest", "knot", "kawait", "ktest"]
                 if mode == "v" and not ref:
                     kinds += ["begin", "beginc", "inc", "pinc", "deref", "arrow", "isend", "for"]
                 k = rng.choice(kinds)
@@ -297,8 +311,10 @@ class GenSuite(Suite):
                     ops = [completion()]
                 elif k == "fread":
                     ops = [rng.choice(["fwait", "fget", "fawait", "fhas", "fbool", "fnot"])]
-                elif k in ("next", "nnext", "anext", "call", "sub", "while"):
+                elif k in ("next", "nnext", "anext", "call", "sub", "while", "keep"):
                     ops = [access(k)]
+                    if k == "keep":
+                        ops.append(rng.choice(["ktest", "knot", "kawait"]))
                     if rng.random() < 0.5 and k != "while":
                         ops.append("value" if k != "call" else rng.choice(["fwait", "fget", "fawait", "fhas", "fbool", "fnot"]))
                 else:
@@ -338,6 +354,7 @@ class GenSuite(Suite):
         fut_idx = None           # access index of the future held by the harness
         fut_done = False
         last_arg = None          # argument of the most recent started access
+        karg, ktrue = None, False      # the kept `auto n = gen.next(a)` object: its argument, whether a consultation has answered true
         chain_left, chain_arg = 0, 0   # the callback awaiter re-arms itself chain_left more times, next argument chain_arg + 1
         dtor_seen = set()
         alive = True
@@ -348,6 +365,28 @@ class GenSuite(Suite):
             kind = w[0]
             rejected = bool(res) and res[0] in REJECT
             started = None
+            if kind == "keep" and not rejected and alive:
+                karg, ktrue = (int(w[1]) if len(w) > 1 else None), False
+            if kind in ("ktest", "knot", "kawait") and not rejected and alive and res[:1] != ["stale"]:
+                if kind != "kawait" and ktrue:
+                    # documented: only the first access through a next() object calls the generator; a further truth test of an object
+                    # that has answered true answers true again and is not an access (the position-by-position checks of the
+                    # following value()/accesses fail if it advanced the generator)
+                    if res[0] != "true":
+                        msgs.append("sequence: re-consulting a kept next() object that had answered true gave %s" % res[0])
+                else:
+                    started = nacc
+                    if inflight and inflight[0] == "call":
+                        cur = inflight[1]
+                        inflight = None
+                    nacc += 1
+                    last_arg = karg
+                    if kind == "kawait":
+                        inflight = ("kawait", started)
+                    else:
+                        check_truth(started, res[0], "bool(n)" if kind == "ktest" else "!n")
+                        cur = started
+                        ktrue = res[0] == "true"
             if kind in ACCESS and not rejected and alive:
                 started = nacc
                 if inflight and inflight[0] == "call":
@@ -406,7 +445,7 @@ class GenSuite(Suite):
             # argument delivery: the body is resumed from a co_yield by access i (1 <= i <= n): it must receive exactly this call's
             # argument, at once; events are processed in order of occurrence (a callback may re-arm itself inside its notification)
             need_got = None
-            if mode == "a" and started is not None and kind in ("next", "nnext", "anext", "call", "sub", "subr") and 1 <= started <= n:
+            if mode == "a" and started is not None and kind in ("next", "nnext", "anext", "call", "sub", "subr", "ktest", "knot", "kawait") and 1 <= started <= n:
                 need_got = (started, last_arg)
             for e in evs:
                 if e.startswith("arg="):
@@ -427,6 +466,15 @@ class GenSuite(Suite):
                     else:
                         check_truth(inflight[1], e[6:], "co_await next()")
                         cur = inflight[1]
+                        inflight = None
+                elif e.startswith("kawait="):
+                    if not inflight or inflight[0] != "kawait":
+                        msgs.append("sequence: a consumer coroutine was resumed although no co_await on the kept object was outstanding")
+                    else:
+                        check_truth(inflight[1], e[7:], "co_await n")
+                        cur = inflight[1]
+                        if e[7:] != "nomore":          # (a co_await that throws leaves the object as it was)
+                            ktrue = e[7:] == "true"
                         inflight = None
                 elif e.startswith("sub="):
                     if not inflight or inflight[0] != "sub":
@@ -503,7 +551,7 @@ class GenSuite(Suite):
                 alive = False
             if kind == "end":
                 kv = dict(x.split("=") for x in res if "=" in x)
-                if inflight and (inflight[0] in ("anext", "sub") or kv.get("fut") == "pending"):
+                if inflight and (inflight[0] in ("anext", "sub", "kawait") or kv.get("fut") == "pending"):
                     msgs.append("lost: access #%d (%s) was never served" % (inflight[1], inflight[0]))
                 if kv.get("made") != kv.get("once") or kv.get("multi") != "0":
                     msgs.append("destroy: %s guards constructed in the body, %s destroyed exactly once, %s more than once"
@@ -514,8 +562,8 @@ class GenSuite(Suite):
 
     # ------------------------------------------------------------------ evidence
     def nontrivial(self, case, out):
-        served = sum(1 for l in out if re.match(r"(next|nnext|begin|beginc|inc) (true|false)|call (ready|pending)|pinc v", l)) + \
-            sum(l.count("anext=") + l.count("sub=v") for l in out) + sum(max(0, len(l.split(" ; ")[0].split()) - 1) for l in out if l.startswith(("for ", "while ")))
+        served = sum(1 for l in out if re.match(r"(next|nnext|ktest|knot|begin|beginc|inc) (true|false)|call (ready|pending)|pinc v", l)) + \
+            sum(l.count("anext=") + l.count("kawait=") + l.count("sub=v") for l in out) + sum(max(0, len(l.split(" ; ")[0].split()) - 1) for l in out if l.startswith(("for ", "while ")))
         styles = {l.split()[0] for l in case["lines"][2:]} & set(ACCESS)
         acts = case["lines"][1].split()[1:] if len(case["lines"]) > 1 else []
         pend = any("helped=" in l for l in out) or any(l.startswith(("complete ;", "tcomplete ;")) for l in out)
@@ -597,6 +645,15 @@ class ExhSuite(GenSuite):
                         o = "active"
                     elif o == "fwait" and (idx + j) % 3 == 1:
                         o = "fbool" if (idx + j) % 2 else "fnot"
+                    elif o == "anext" and (idx + j) % 3 == 1:
+                        lines.append("keep %d" % (10 + 2 * j) if mode == "a" else "keep")
+                        lines.append("kawait")
+                        lines.append("ktest")
+                        continue
+                    elif o in ("next", "nnext") and (idx + j) % 5 == 2:
+                        lines.append("keep %d" % (10 + 2 * j) if mode == "a" else "keep")
+                        lines += ["ktest", "knot"]
+                        continue
                     lines.append("%s %d" % (o, 10 + 2 * j) if mode == "a" and o in ("next", "nnext", "anext", "call", "subr 1", "while") else o)
                 lines.append("end")
                 cases.append({"id": 0, "lines": lines})
